@@ -219,15 +219,19 @@ class IterableCoercerProvider(NormTypeCoercerProvider):
         return iterable_coercer
 
     def _parse_source(self, norm: BaseNormType) -> TypeHint:
-        if norm.origin is tuple and norm.args[-1] != Ellipsis:
+        if norm.origin is tuple and norm.args[-1:] != (Ellipsis, ):
             raise CannotProvide("Constant-length tuple is not supported yet", is_demonstrative=True)
+        if not norm.args:  # an unsubscribed abstract collection has no element type
+            raise CannotProvide
         if norm.origin in self.CONCRETE_ORIGINS or norm.origin in self.ABC_TO_IMPL:
             return norm.args[0].source
         raise CannotProvide
 
     def _parse_destination(self, norm: BaseNormType) -> tuple[Callable, TypeHint]:
-        if norm.origin is tuple and norm.args[-1] != Ellipsis:
+        if norm.origin is tuple and norm.args[-1:] != (Ellipsis, ):
             raise CannotProvide("Constant-length tuple is not supported yet", is_demonstrative=True)
+        if not norm.args:  # an unsubscribed abstract collection has no element type
+            raise CannotProvide
         if norm.origin in self.CONCRETE_ORIGINS:
             return norm.origin, norm.args[0].source
         if norm.origin in self.ABC_TO_IMPL:
@@ -266,11 +270,11 @@ class DictCoercerProvider(NormTypeCoercerProvider):
         return dict_coercer
 
     def _parse_source(self, norm: BaseNormType) -> tuple[TypeHint, TypeHint]:
-        if norm.origin in (dict, collections.abc.Mapping, collections.abc.MutableMapping):
+        if norm.origin in (dict, collections.abc.Mapping, collections.abc.MutableMapping) and norm.args:
             return norm.args[0].source, norm.args[1].source
         raise CannotProvide
 
     def _parse_destination(self, norm: BaseNormType) -> tuple[TypeHint, TypeHint]:
-        if norm.origin in (dict, collections.abc.Mapping, collections.abc.MutableMapping):
+        if norm.origin in (dict, collections.abc.Mapping, collections.abc.MutableMapping) and norm.args:
             return norm.args[0].source, norm.args[1].source
         raise CannotProvide
